@@ -38,3 +38,9 @@ func VerifC02LookupCut(c *Cache, req *dns.Msg) (*dns.Msg, bool) {
 	m := e.response(req)
 	return m, m != nil
 }
+
+// VerifC02LookupCutWire is Store.LookupNXDomainCutWire (the wire-born question's cut lookup).
+func VerifC02LookupCutWire(c *Cache, wireName []byte, qclass uint16) bool {
+	e, ok := c.store.LookupNXDomainCutWire(wireName, qclass)
+	return ok && e != nil
+}
